@@ -7,16 +7,19 @@ from check import Failure
 from sfv import gen
 from sfv.canon import tok, untok, err_cat, dtype_tok, array_toks
 
-TARGETS = ['SFModel.Props.C04', 'SFModel.Bridge']
+TARGETS = ['SFModel.Props.C04', 'SFModel.Bridge', 'SFModel.Props.C02']
 THEOREMS = [
     'SF.C04.slice_positions_in_range', 'SF.C04.slice_positions_arith', 'SF.C04.slice_positions_complete_pos',
     'SF.C04.slice_positions_strict', 'SF.C04.int_position', 'SF.C04.mask_positions',
     'SF.C04.key_positions_in_range', 'SF.C04.list_positions',
     'SF.Bridge.inclusive_bridge', 'SF.Bridge.ascending_bridge', 'SF.Bridge.cols_bridge',
+    # label keys over a flat index: Series.loc / Frame.loc are run against Index.locToIlocP (driver op index.cloc), about which:
+    'SF.C02.bijection', 'SF.C02.slice_inclusive', 'SF.C02.slice_inclusive_descending',
 ]
 PARTIAL = []
 CORR_ONLY = ['Frame/Series .iloc with every key kind on both axes (model: Key.positions + list selection in the harness)',
-             'label routes (.loc / getitem) on flat, auto, datetime and hierarchical axes (reference: dict label->position)']
+             'label routes (.loc / getitem) on flat, auto, datetime and hierarchical axes (reference: dict label->position)',
+             'label keys of every kind (label, list, slice with step in {None,1,2,3,-1,-2} and open / absent ends, Boolean mask of right and wrong length) over flat and automatic indices: Series.loc, Frame.loc[k] and Frame.loc[k, col] return exactly the rows the Lean Index model (Index.locToIlocP, the container route) addresses, and refuse what it refuses']
 RULE = ('seeded random frames/series (all dtype kinds, random block layouts, index kinds) x random keys '
         '(int, slice with out-of-range / negative members, list with repeats, Boolean mask) on one or both axes, '
         'plus a slice grid; non-trivial = key is not the null slice and the container is non-empty; '
@@ -67,8 +70,11 @@ def cases(ctx):
         yield {'k': 'frame', 'spec': spec, 'route': route, 'rk': rk, 'ck': ck, 'n': n * m}
     # label-specific forms: Boolean Series keys aligned by label, ILoc wrappers, absent labels, datetime periods
     for i in range(500 if quick else 8000):
-        sub = rng.choice(['boolseries', 'iloc_wrap', 'absent', 'dt', 'dt', 'dt_slice'])
+        sub = rng.choice(['boolseries', 'iloc_wrap', 'absent', 'dt', 'dt', 'dt_slice', 'lmodel', 'lmodel', 'lmodel'])
         n = rng.randint(1, 6)
+        if sub == 'lmodel':
+            yield lmodel_case(rng, n)
+            continue
         if sub in ('dt', 'dt_slice'):
             days = sorted(rng.sample(range(0, 500), n))
             if sub == 'dt' and rng.random() < 0.5:
@@ -79,9 +85,19 @@ def cases(ctx):
             labels = gen.rand_labels(rng, n, kind)
             yield {'k': 'lab', 'sub': sub, 'labels': labels, 'lkind': kind, 'r': rng.randint(0, 10 ** 6), 'n': n,
                    'bits': [rng.randint(0, 1) for _ in range(n)], 'perm': rng.sample(range(n), n)}
+    yield from cases_chain(ctx, ctx.rng('chain'))
 
 
 def model_lines(c):
+    return model_lines_(c)
+
+
+def cases_chain(ctx, rng):
+    for _ in range(500 if ctx.tier == 'quick' else 8000):
+        yield chain_case(rng)
+
+
+def model_lines_(c):
     if c['k'] == 'sl':
         s = gen.key_to_wire(c['s'])
         return [f'slice.positions {s} {c["n"]}', f'slice.ascending {s} {c["n"]}', f'gen.ascending {s} {c["n"]}',
@@ -90,6 +106,10 @@ def model_lines(c):
         l = '(' + ' '.join(str(x) for x in c['l']) + ')'
         return [f'slice.cols {l}', f'gen.cols {l}']
     if c['k'] == 'lab':
+        if c['sub'] == 'lmodel':
+            return [lmodel_line(c)]
+        if c['sub'] == 'chain':
+            return [f'key.positions {gen.key_to_wire(c["key"])} {c["n"]}']
         return []
     if c['k'] == 'frame':
         spec = c['spec']
@@ -142,8 +162,210 @@ def evaluate(ctx, c, outs):
             fails.append(Failure('corr', f'_cols_to_slice {c["l"]}: model {outs[0]} gen {outs[1]} real {r}', c))
         return fails
     if c['k'] == 'lab':
+        if c['sub'] == 'lmodel':
+            return eval_lmodel(ctx, c, outs)
+        if c['sub'] == 'chain':
+            return eval_chain(ctx, c, outs)
         return eval_lab(ctx, c)
     return eval_frame(ctx, c, outs)
+
+
+LM_POOL = ['a', 'b', 'c', 1, 2, 3, 'zz', 10, -1, 'x', 'ab', 7]
+LM_ABSENT = ['__absent__', 99, -42, 'q']
+
+
+def lmodel_case(rng, n):
+    """a label key of every kind over a flat index; the Lean Index model (SFModel.Index, theorems of C02) says
+    which positions it addresses, Series.loc / Frame.loc must hand back exactly those rows"""
+    kind = rng.choice(['auto', 'int', 'str', 'mixed'])
+    if kind == 'mixed':
+        labels = [tok(v) for v in rng.sample(LM_POOL, n)]
+    else:
+        labels = gen.rand_labels(rng, n, kind)
+
+    def lab(absent_p=0.1):
+        if rng.random() < absent_p:
+            return tok(rng.choice(LM_ABSENT))
+        return rng.choice(labels)
+    kk = rng.choice(['lab', 'list', 'sl', 'sl', 'sl', 'mask'])
+    if kk == 'lab':
+        key = ['lab', lab(0.2)]
+    elif kk == 'list':
+        key = ['list'] + [lab(0.05) for _ in range(rng.randint(0, 4))]
+    elif kk == 'sl':
+        a = None if rng.random() < 0.25 else lab(0.07)
+        b = None if rng.random() < 0.25 else lab(0.07)
+        key = ['sl', a, b, rng.choice([None, None, 1, 2, 3, -1, -1, -2])]
+    else:
+        ln = n if rng.random() < 0.9 else n + rng.choice([-1, 1])
+        if ln == 0:
+            ln = n + 1      # NumPy accepts a zero-length Boolean key on any axis (it selects nothing): not a key of the claim
+        key = ['mask'] + [rng.randint(0, 1) for _ in range(ln)]
+    return {'k': 'lab', 'sub': 'lmodel', 'labels': labels, 'lkind': kind, 'key': key, 'n': n, 'r': 0}
+
+
+def chain_case(rng):
+    """a positional selection followed by label selections on what it returned: the derived axis must answer for
+    exactly the labels it kept (an automatic index that lost a label must not go on reading labels as positions)"""
+    n = rng.randint(2, 8)
+    kind = rng.choice(['auto', 'auto', 'int', 'str'])
+    labels = gen.rand_labels(rng, n, kind)
+    key = gen.rand_key(rng, n)
+    return {'k': 'lab', 'sub': 'chain', 'labels': labels, 'lkind': kind, 'key': key, 'n': n, 'r': rng.randint(0, 10 ** 6),
+            'axis': rng.randint(0, 1), 'cls': rng.choice(['series', 'frame', 'frame_go', 'index'])}
+
+
+def eval_chain(ctx, c, outs):
+    import static_frame as sf
+    fails = []
+    n, kind, key, r = c['n'], c['lkind'], c['key'], c['r']
+    vals = [untok(t) for t in c['labels']]
+    ref = ref_positions(key, n)
+    if outs and not isinstance(ref, tuple):
+        want = 'ok (' + ' '.join(str(i) for i in ref) + ')'
+        if outs[0] != want:
+            fails.append(Failure('corr', f'chain: key.positions {key} n={n}: model {outs[0]} vs reference {want}', c))
+    if isinstance(ref, tuple) or key[0] == 'int' or len(set(ref)) != len(ref):
+        return fails
+    ctx.count(f'lab_chain_{c["cls"]}_{kind}')
+    data = [10 * i for i in range(n)]
+    pk = gen.key_to_py(key)
+    idx_arg = None if kind == 'auto' else vals
+    try:
+        if c['cls'] == 'series':
+            src = sf.Series(data, index=idx_arg)
+            res = src.iloc[pk]
+            look = lambda l: res.loc[l]
+            ridx = res.index
+        elif c['cls'] == 'index':
+            src = sf.Series(data, index=idx_arg).index
+            res = src.iloc[pk]
+            look = lambda l: data[ref[res.loc_to_iloc(l)]]
+            ridx = res
+        else:
+            cls = sf.Frame if c['cls'] == 'frame' else sf.FrameGO
+            if c['axis'] == 0:
+                src = cls.from_items((('v', data), ('w', [str(i) for i in range(n)])), index=idx_arg)
+                res = src.iloc[pk]
+                look = lambda l: res.loc[l, 'v']
+                ridx = res.index
+            else:
+                src = cls(np.array([data, [d + 1 for d in data]]), columns=idx_arg)
+                res = src.iloc[:, pk]
+                look = lambda l: res[l].values.tolist()[0]
+                ridx = res.columns
+    except Exception as ex:
+        return fails + [Failure('oracle', f'chain: positional selection {key} on {c["cls"]} raised {type(ex).__name__}: {ex}', c)]
+    labs = list(range(n)) if kind == 'auto' else vals
+    kept = {tok(labs[i]): i for i in ref}
+    if [tok(x) for x in ridx] != [tok(labs[i]) for i in ref]:
+        fails.append(Failure('oracle', f'chain: {c["cls"]} iloc {key}: labels {list(ridx)!r}, expected those at positions {ref}', c))
+        return fails
+    for j, l in enumerate(labs):
+        t = tok(l)
+        try:
+            got = look(l)
+            err = None
+        except Exception as ex:
+            got, err = None, ex
+        isin = l in ridx
+        if t in kept:
+            if err is not None or got != data[kept[t]] or not isin:
+                fails.append(Failure('oracle', f'chain: after {c["cls"]} (labels {labs}) iloc {key}, label {l!r} reads {got!r} / raised {type(err).__name__ if err else None} / in={isin}; expected the value {data[kept[t]]} of original position {kept[t]}', c))
+        else:
+            if err is None or isin:
+                fails.append(Failure('oracle', f'chain: after {c["cls"]} (labels {labs}) iloc {key}, the dropped label {l!r} reads {got!r} (in={isin}) instead of raising a lookup error', c))
+    return fails
+
+
+def lmodel_line(c):
+    from sfv.props.ixcommon import Interner
+    it = Interner()
+    c['_it'] = it
+    vals = [untok(t) for t in c['labels']]
+    ix = f'(a {c["n"]})' if c['lkind'] == 'auto' else '(m ' + ' '.join(it.lab(v) for v in vals) + ')'
+    key = c['key']
+    f = lambda t: 'N' if t is None else it.lab(untok(t))
+    if key[0] == 'lab':
+        w = f'(lab {f(key[1])})'
+    elif key[0] == 'list':
+        w = '(list ' + ' '.join(f(t) for t in key[1:]) + ')'
+    elif key[0] == 'sl':
+        w = f'(sl {f(key[1])} {f(key[2])} {"N" if key[3] is None else key[3]})'
+    else:
+        w = '(mask ' + ' '.join(str(b) for b in key[1:]) + ')'
+    return f'index.cloc {ix} {w}'      # the container route (Index._loc_to_iloc), as Series.loc / Frame.loc use it
+
+
+def eval_lmodel(ctx, c, outs):
+    import static_frame as sf
+    from sfv.props.ixcommon import parse_answer, ikey_wire_positions
+    fails = []
+    n, kind, key = c['n'], c['lkind'], c['key']
+    ctx.count(f'lab_lmodel_{key[0]}')
+    vals = [untok(t) for t in c['labels']]
+    data = [10 * i for i in range(n)]
+    if kind == 'auto':
+        s = sf.Series(data)
+        f = sf.Frame.from_items((('v', data), ('w', [str(i) for i in range(n)])))
+    else:
+        s = sf.Series(data, index=vals)
+        f = sf.Frame.from_items((('v', data), ('w', [str(i) for i in range(n)])), index=vals)
+    u = lambda t: None if t is None else untok(t)
+    if key[0] == 'lab':
+        pk = u(key[1])
+    elif key[0] == 'list':
+        pk = [u(t) for t in key[1:]]
+    elif key[0] == 'sl':
+        pk = slice(u(key[1]), u(key[2]), key[3])
+    else:
+        pk = np.array([bool(b) for b in key[1:]], dtype=bool)
+    if not outs:
+        return fails
+    ans = parse_answer(outs[0])
+    if ans[0] == 'bad':
+        return [Failure('corr', f'driver refused {lmodel_line(c)}: {outs[0]}', c)]
+    routes = (('series.loc[k]', lambda: s.loc[pk], lambda r: r.values.tolist() if isinstance(r, sf.Series) else r, lambda r: list(r.index)),
+              ('frame.loc[k, "v"]', lambda: f.loc[pk, 'v'], lambda r: r.values.tolist() if isinstance(r, sf.Series) else r, lambda r: list(r.index)),
+              ('frame.loc[k]', lambda: f.loc[pk], lambda r: r['v'].values.tolist() if isinstance(r, sf.Frame) else r.values.tolist()[0], lambda r: list(r.index) if isinstance(r, sf.Frame) else None))
+    for desc, fn, vals_of, labs_of in routes:
+        try:
+            res = fn()
+            err = None
+        except Exception as ex:
+            res, err = None, ex
+        if ans[0] == 'err':
+            ctx.count('lab_lmodel_err')
+            if err is None:
+                fails.append(Failure('oracle', f'label route lmodel: {desc} with key {pk!r} over labels {vals!r} returned {res!r}; the Index model refuses the key ({ans[1]})', c))
+            continue
+        pos = ikey_wire_positions(ans[1], n)
+        scalar = ans[1][0] == 'int'
+        if any(not 0 <= q < n for q in pos):
+            # an automatic index hands integer labels on as positions: one beyond the axis is refused by the array lookup
+            ctx.count('lab_lmodel_beyond_axis')
+            if err is None:
+                fails.append(Failure('oracle', f'label route lmodel: {desc} with key {pk!r} over labels {vals!r} returned {res!r} although the key names a label that is not held', c))
+            continue
+        if err is not None:
+            if len(set(pos)) != len(pos) and type(err).__name__ == 'ErrorInitIndexNonUnique':
+                ctx.count('lab_lmodel_repeated_label_refused')      # a result with a repeated label is refused, never built
+                continue
+            fails.append(Failure('oracle', f'label route lmodel: {desc} with key {pk!r} over labels {vals!r} raised {type(err).__name__}: {err}; the Index model addresses positions {pos}', c))
+            continue
+        got = vals_of(res)
+        if scalar:
+            if got != data[pos[0]]:
+                fails.append(Failure('oracle', f'label route lmodel: {desc} with key {pk!r} over labels {vals!r} gave {got!r}, the model addresses position {pos[0]}', c))
+            continue
+        exp = [data[i] for i in pos]
+        if not isinstance(got, list) or got != exp:
+            fails.append(Failure('oracle', f'label route lmodel: {desc} with key {pk!r} over labels {vals!r} selected {got!r}, the model addresses positions {pos}', c))
+            continue
+        labs = labs_of(res)
+        if labs is not None and [tok(x) for x in labs] != [tok(list(s.index)[i]) for i in pos]:
+            fails.append(Failure('oracle', f'label route lmodel: {desc} with key {pk!r}: labels of the result {labs!r} are not the labels at positions {pos}', c))
+    return fails
 
 
 def eval_lab(ctx, c):
